@@ -607,6 +607,22 @@ func (c *RtspClient) SendUdp(track int, rtcp bool, data []byte) error {
 	return err
 }
 
+// SendUdpCross sends an RTP datagram of `track` to the RTP port the server opened for the OTHER track
+// (a peer - or the previous user of a re-used port - may send any datagram to any of the session's ports).
+func (c *RtspClient) SendUdpCross(track int, data []byte) error {
+	c.mu.Lock()
+	other := 1 - track
+	if track*2+1 >= len(c.udp) || other < 0 || other >= len(c.ServerPorts) {
+		c.mu.Unlock()
+		return errors.New("no second udp track")
+	}
+	u := c.udp[track*2]
+	port := c.ServerPorts[other][0]
+	c.mu.Unlock()
+	_, err := u.WriteToUDP(data, &net.UDPAddr{IP: net.IPv4(127, 0, 0, 1), Port: port})
+	return err
+}
+
 // BuildSdp builds a publisher SDP.
 type SdpTrack struct {
 	Kind    string // video | audio
